@@ -152,6 +152,9 @@ theorem treeCell_same : ∀ (c : LCell) (p : CPay) (cells : List LCell) (x y : S
   | .delay _ _, .child _ _, _, _, _, _, _, h => by simpa [treeCell] using h
   | .child _ _ _, .mem _, _, _, _, _, _, h => by simpa [treeCell] using h
   | .child _ _ _, .delay _ _, _, _, _, _, _, h => by simpa [treeCell] using h
+  | .mem _, .skip, _, _, _, _, _, h => by simpa [treeCell] using h
+  | .delay _ _, .skip, _, _, _, _, _, h => by simpa [treeCell] using h
+  | .child _ _ _, .skip, _, _, _, _, _, h => by simpa [treeCell] using h
 theorem treeCells_same : ∀ (seg : List LCell) (ps : List CPay) (cells : List LCell) (x y : SNode),
     LayOkL cells → (∀ c ∈ seg, c ∈ cells) → SameN cells x y →
     SameN cells (treeCells seg ps x).1 (treeCells seg ps y).1
